@@ -37,6 +37,8 @@ def make():
 C = make()
 def F(x, acc = [1]):
     return acc + [x]
+def F10(a, b = 1, c = 2, d = 3, e = 4, f = 5, g = 6, h = 7, i = 8, j = 9, *rest, k = 10, **kw):
+    return (a, j, k, rest, kw)
 BM = L.index
 BA = [9].append
 def K(e):
@@ -98,6 +100,10 @@ def op_json(v): return json.encode(v)
 def op_call0(v): return v()
 def op_call1(v): return v(7)
 def op_call_two(v): return v("two")
+def op_call_kw(v): return v(1, j = 2, k = 3)
+def op_call_kw_first(v): return v(a = 1)
+def op_call_kw_unknown(v): return v(1, zz = 2)
+def op_call_star_kw(v): return v(*[1, 2], **{"zz": 3})
 def op_getattr(v): return [getattr(v, n) for n in dir(v)]
 def op_hasattr(v): return hasattr(v, "a")
 def op_field(v): return (v.a, v.b, v.c.d)
